@@ -8,6 +8,7 @@ from ..algebra import FALSE, INF, NONE, RF, TRUE, Lit, rf_inf, rf_minmax
 from ..extfacts import HEAVY_LIBS, evaluated_chains, numpy_stub_names, resolve_chain
 from ..index import AnalysisError, FuncInfo, norm_stmt
 from ..paths import TupleVal, atomv, key_of
+from ..paths import _is_trivial
 from ..report import Ctx
 from ..roles import RoleMissing
 from . import common as C
@@ -203,6 +204,11 @@ def r03_1(ctx: Ctx):
     sol = ctx.ix.cls('Solution')
     for m in roles.attr_writers(fld, sol):
         if m.func is er:
+            continue
+        cs = roles.callers_of(m.func)
+        if cs and all(c is er for c in cs) and _is_trivial(m.func):
+            # a one-statement bump called by the evaluation routine and by nobody else: the path check above saw it
+            # (one-statement functions are inlined) and counted it
             continue
         ctx.fail(rid, m.func.short, m.loc(), f'the global trial counter is written outside the evaluation routine: '
                                              f'{m.text()}', key=ctx.key_for(rid, m.func, m.node))
